@@ -1,13 +1,20 @@
 package harness
 
 import (
+	"bytes"
 	"context"
 	"encoding/binary"
 	"encoding/json"
 	"errors"
 	"fmt"
+	"io"
+	"os"
+	"os/exec"
+	"path/filepath"
 	"reflect"
 	"sort"
+	"strconv"
+	"strings"
 	"sync"
 	"testing"
 	"testing/synctest"
@@ -46,8 +53,8 @@ type c13Payload struct {
 type c13Attr struct {
 	Poison bool   // the batch containing this payload fails
 	PES    uint8  // PipelineExecutionState of its result
-	Mut    uint8  // 0 contract kept; 1 result dropped; 2 result duplicated; 3 foreign work id; 4 other block number
-	Misc   uint8  // bit0 retryable, bit1 eligible
+	Mut    uint8  // 0 contract kept; 1 result dropped; 2 result duplicated; 3 foreign work id; 4 other block number; 5 trigger shape flipped (log extension added / removed; same work id, block, hash)
+	Misc   uint8  // bit0 retryable, bit1 eligible, bit2 the batch ignores its context (answers after its latency whatever happens), bit3 RetryInterval set, bit4 non-zero IneligibilityReason
 	CID    uint16 // call id (lets the fake attribute a batch to its call)
 	Lat    uint64 // latency contribution in ns (a batch takes the maximum over its payloads, at least 1 ns)
 }
@@ -86,9 +93,16 @@ type c13Call struct {
 // successful batch) + CacheExpire + d, if that is in the future: TTL boundary ±1 ns.
 
 type c13Input struct {
-	Expire  int64     `json:"expire"` // RunnerConfig.CacheExpire in ns; 0 = never
-	Clean   int64     `json:"clean"`  // RunnerConfig.CacheClean in ns
-	Workers int       `json:"workers"`
+	Expire  int64 `json:"expire"` // RunnerConfig.CacheExpire in ns; 0 = never
+	Clean   int64 `json:"clean"`  // RunnerConfig.CacheClean in ns
+	Workers int   `json:"workers"`
+	// Racy: instant pipeline AND the calls are not moved to instants of their own: callers that wake
+	// at the same virtual instant run truly concurrently (look-up loops against aggregations).  The
+	// model is then not compared (the cache a look-up sees is mid-way through another call's
+	// writes); the predicate on the observations is evaluated as always.
+	Racy bool `json:"racy,omitempty"`
+	// CloseAt > 0: Runner.Close() is called that many ns after the history starts, whatever is in flight
+	CloseAt int64     `json:"closeAt,omitempty"`
 	Instant bool      `json:"instant,omitempty"` // the pipeline answers without any (virtual) delay: batches of a call complete concurrently
 	Calls   []c13Call `json:"calls"`
 }
@@ -113,15 +127,22 @@ type c13Ret struct {
 	// The caller keeps the slice CheckUpkeeps returned.  Vals is its content right after the call
 	// returned; at the end of the history (every later and concurrent call on the runner done) the
 	// same slice is read again: HeldSame, or its content then in Held.
+	// 0 the runner was running until the call returned; 1 Runner.Close() came after the call's
+	// look-ups and before its return; 2 the runner had been closed before the call started
+	Stopped  int   `json:"stopped,omitempty"`
 	HeldSame bool  `json:"heldSame"`
 	Held     []JCR `json:"held,omitempty"`
 
-	raw []ocr2keepers.CheckResult
+	raw      []ocr2keepers.CheckResult
+	startAt  int64
+	returnAt int64
 }
 type c13Impl struct {
 	Events  []c13Ev  `json:"events"`
 	Rets    []c13Ret `json:"rets"`
 	Problem string   `json:"problem,omitempty"` // harness-level anomaly (runner did not stop, call did not return)
+	Crashed bool     `json:"crashed,omitempty"` // the process died while this history ran (written by the parent process)
+	Crash   string   `json:"crash,omitempty"`   // first "panic:" / "fatal error:" line of the dead process
 }
 
 func toC13Payload(p ocr2keepers.UpkeepPayload) c13Payload {
@@ -175,8 +196,10 @@ func (s *c13Scn) claim(ev c13Ev) int64 {
 		now := time.Since(s.t0).Nanoseconds()
 		if !s.claimed[now] && (s.clean <= 0 || now%s.clean != 0) {
 			s.claimed[now] = true
-			ev.Now = now
-			s.events = append(s.events, ev)
+			if ev.T != "" { // "" = only move to an instant of one's own (Runner.Close)
+				ev.Now = now
+				s.events = append(s.events, ev)
+			}
 			if ev.T == "d" && ev.OK {
 				s.lastOK[s.callers[ev.C]] = now
 			}
@@ -192,19 +215,26 @@ var errC13Pipeline = errors.New("c13: injected pipeline failure")
 
 // CheckUpkeeps is the wrapped pipeline.
 func (s *c13Scn) CheckUpkeeps(ctx context.Context, ps ...ocr2keepers.UpkeepPayload) ([]ocr2keepers.CheckResult, error) {
-	lat, fail, cid := uint64(1), false, 0
+	lat, fail, cid, stubborn := uint64(1), false, 0, false
 	for _, p := range ps {
 		a := c13Decode(p.CheckData)
 		if a.Lat > lat {
 			lat = a.Lat
 		}
 		fail = fail || a.Poison
+		stubborn = stubborn || a.Misc&4 != 0
 		cid = int(a.CID)
 	}
 	// a pipeline that honours its context: it gives up with ctx.Err() when the context is done
 	// before the answer is ready
+	// ... unless it is past the point where the context matters (the answer is on its way and is
+	// delivered after the latency, whatever happens to the context meanwhile)
 	ctxFail := false
-	if c13CtxDone(ctx) {
+	if stubborn {
+		if !s.instant {
+			time.Sleep(time.Duration(lat))
+		}
+	} else if c13CtxDone(ctx) {
 		ctxFail = true
 	} else if !s.instant {
 		tm := time.NewTimer(time.Duration(lat))
@@ -231,6 +261,12 @@ func (s *c13Scn) CheckUpkeeps(ctx context.Context, ps ...ocr2keepers.UpkeepPaylo
 				GasAllocated: exec*1000 + uint64(i), // unique per pipeline execution and position
 				PerformData:  []byte{byte(exec), byte(i)},
 			}
+			if a.Misc&8 != 0 {
+				r.RetryInterval = 5 * time.Second // "ask again later" (normally zero)
+			}
+			if a.Misc&16 != 0 {
+				r.IneligibilityReason = uint8(1 + exec%9)
+			}
 			switch a.Mut {
 			case 1:
 				continue
@@ -240,6 +276,12 @@ func (s *c13Scn) CheckUpkeeps(ctx context.Context, ps ...ocr2keepers.UpkeepPaylo
 				r.WorkID = "foreign-" + p.WorkID[:8]
 			case 4:
 				r.Trigger.BlockNumber++
+			case 5:
+				if r.Trigger.LogTriggerExtension == nil {
+					r.Trigger.LogTriggerExtension = &ocr2keepers.LogTriggerExtension{TxHash: p.Trigger.BlockHash, Index: uint32(i), BlockHash: p.Trigger.BlockHash, BlockNumber: p.Trigger.BlockNumber}
+				} else {
+					r.Trigger.LogTriggerExtension = nil
+				}
 			}
 			out = append(out, r)
 		}
@@ -264,7 +306,7 @@ func (s *c13Scn) CheckUpkeeps(ctx context.Context, ps ...ocr2keepers.UpkeepPaylo
 
 // c13Run executes one history on a fresh real runner inside the current bubble.
 func c13Run(t *testing.T, in c13Input) c13Impl {
-	s := &c13Scn{t0: time.Now(), clean: in.Clean, claimed: map[int64]bool{}, lastOK: map[int]int64{}, callers: map[int]int{}, instant: in.Instant}
+	s := &c13Scn{t0: time.Now(), clean: in.Clean, claimed: map[int64]bool{}, lastOK: map[int]int64{}, callers: map[int]int{}, instant: in.Instant || in.Racy}
 	r, err := runner.NewRunner(quietLogger, s, runner.RunnerConfig{
 		Workers: in.Workers, WorkerQueueLength: 100,
 		CacheExpire: time.Duration(in.Expire), CacheClean: time.Duration(in.Clean),
@@ -295,7 +337,7 @@ func c13Run(t *testing.T, in c13Input) c13Impl {
 				if c.Wait > 0 {
 					time.Sleep(time.Duration(c.Wait))
 				}
-				if c.ExpAlign != nil && in.Expire > 0 {
+				if c.ExpAlign != nil && in.Expire > 0 && in.Expire <= int64(10*time.Second) {
 					s.mu.Lock()
 					last, ok := s.lastOK[k]
 					s.mu.Unlock()
@@ -309,7 +351,13 @@ func c13Run(t *testing.T, in c13Input) c13Impl {
 				for i, p := range c.Payloads {
 					ps[i] = fromC13Payload(p)
 				}
-				s.claim(c13Ev{T: "s", C: c.C})
+				var startAt int64
+				if in.Racy {
+					s.log(c13Ev{T: "s", C: c.C})
+					startAt = time.Since(s.t0).Nanoseconds()
+				} else {
+					startAt = s.claim(c13Ev{T: "s", C: c.C})
+				}
 				ctx, cancel := context.Background(), context.CancelFunc(func() {})
 				switch {
 				case c.Timeout > 0:
@@ -319,7 +367,7 @@ func c13Run(t *testing.T, in c13Input) c13Impl {
 					cancel()
 				}
 				vals, err := r.CheckUpkeeps(ctx, ps...)
-				ret := c13Ret{C: c.C, Vals: toJCRs(vals), Cancelled: c13CtxDone(ctx), raw: vals}
+				ret := c13Ret{C: c.C, Vals: toJCRs(vals), Cancelled: c13CtxDone(ctx), raw: vals, startAt: startAt, returnAt: time.Since(s.t0).Nanoseconds()}
 				cancel()
 				switch {
 				case err == nil:
@@ -340,14 +388,31 @@ func c13Run(t *testing.T, in c13Input) c13Impl {
 	// virtual time runs while this goroutine is blocked; if the callers can never finish the
 	// bubble would dead-lock, so bound the wait in virtual time
 	problem := ""
+	closedAt := int64(0)
+	if in.CloseAt > 0 {
+		// the node shuts the runner down while calls may be in flight
+		if d := in.CloseAt - time.Since(s.t0).Nanoseconds(); d > 0 {
+			time.Sleep(time.Duration(d))
+		}
+		closedAt = s.claim(c13Ev{})
+		if err := r.Close(); err != nil {
+			problem += " Close: " + err.Error()
+		}
+	}
 	select {
 	case <-done:
 	case <-time.After(24 * time.Hour):
-		problem = "a CheckUpkeeps call did not return within 24 virtual hours"
+		problem += " a CheckUpkeeps call did not return within 24 virtual hours"
 	}
 	// what the callers still hold, after everything else that happened on the runner
 	s.mu.Lock()
 	for i := range s.rets {
+		if closedAt > 0 && s.rets[i].returnAt > closedAt {
+			s.rets[i].Stopped = 1
+			if s.rets[i].startAt > closedAt {
+				s.rets[i].Stopped = 2
+			}
+		}
 		held := toJCRs(s.rets[i].raw)
 		if reflect.DeepEqual(held, s.rets[i].Vals) {
 			s.rets[i].HeldSame = true
@@ -356,8 +421,10 @@ func c13Run(t *testing.T, in c13Input) c13Impl {
 		}
 	}
 	s.mu.Unlock()
-	if err := r.Close(); err != nil {
-		problem += " Close: " + err.Error()
+	if closedAt == 0 {
+		if err := r.Close(); err != nil {
+			problem += " Close: " + err.Error()
+		}
 	}
 	select {
 	case <-started:
@@ -393,10 +460,21 @@ type c13World struct {
 func c13NewWorld(r *Rng, pool int) *c13World {
 	w := &c13World{r: r}
 	for i := 0; i < pool; i++ {
-		w.uids = append(w.uids, genUpkeepID(r, r.Chance(30)))
+		if r.Chance(4) {
+			w.uids = append(w.uids, genUpkeepIDOther(r)) // neither a conditional nor a log upkeep
+		} else {
+			w.uids = append(w.uids, genUpkeepID(r, r.Chance(30)))
+		}
 	}
-	base := uint64(r.Range(100, 1_000_000))
 	nb := r.Range(1, 4)
+	base := uint64(r.Range(100, 1_000_000))
+	if r.Chance(25) { // check block numbers at and across the widths a number may pass through
+		edges := []uint64{1 << 31, 1 << 32, 1 << 53, 1 << 63, ^uint64(0) - uint64(nb)}
+		base = edges[r.Intn(len(edges))]
+		if base != ^uint64(0)-uint64(nb) && r.Chance(50) {
+			base -= uint64(r.Range(1, nb))
+		}
+	}
 	for b := 0; b < nb; b++ {
 		forks := 1
 		if r.Chance(50) {
@@ -458,6 +536,9 @@ func c13Gen(r *Rng, big bool, em *Emitter) c13Input {
 		if r.Chance(30) {
 			in.Expire = int64(r.Range(1, 2000)) // a few ns: expires between the batches of one call
 		}
+		if r.Chance(10) {
+			in.Expire = []int64{1, int64(time.Hour), 100 * 365 * 24 * int64(time.Hour)}[r.Intn(3)] // 1 ns, an hour, a century
+		}
 	}
 	in.Clean = int64(30 * time.Second)
 	if r.Chance(30) {
@@ -472,7 +553,8 @@ func c13Gen(r *Rng, big bool, em *Emitter) c13Input {
 		callers = r.Range(2, 8)
 	}
 	adversarial := r.Chance(10)
-	failMode := r.Intn(10) // per history; refined per call below
+	stubborn := r.Chance(25) // some pipeline calls do not react to their context any more
+	failMode := r.Intn(10)   // per history; refined per call below
 	n0 := c13Size(r, big)
 	pool := 1 + n0/r.Range(1, 3)
 	if r.Chance(30) {
@@ -548,9 +630,21 @@ func c13Gen(r *Rng, big bool, em *Emitter) c13Input {
 				a.Poison = r.Intn(1000) < pPoison
 				if r.Chance(10) {
 					a.PES = uint8(r.Range(1, 9))
+					if r.Chance(50) {
+						a.Misc |= 8 // failed execution that proposes a retry interval
+					}
+				}
+				if r.Chance(5) { // legal but unusual flag combinations: retry interval / reason on any result
+					a.Misc |= uint8(8 << r.Intn(2))
+				}
+				if stubborn && r.Chance(30) {
+					a.Misc |= 4
 				}
 				if adversarial && r.Chance(8) {
 					a.Mut = uint8(r.Range(1, 4))
+				}
+				if r.Chance(2) {
+					a.Mut = 5 // same unit of work, other trigger shape than the payload (and than earlier results)
 				}
 				p.CheckData = a.encode()
 				call.Payloads = append(call.Payloads, toC13Payload(p))
@@ -559,6 +653,14 @@ func c13Gen(r *Rng, big bool, em *Emitter) c13Input {
 			in.Calls = append(in.Calls, call)
 			cid++
 		}
+	}
+	// now and then the node closes the runner while the history is under way
+	if !big && r.Chance(12) {
+		in.CloseAt = 1000 + int64(c13Lats[r.Range(2, len(c13Lats)-1)]) + int64(r.Range(0, 3_000_000))
+		em.Hit("runner-closed-during-history")
+	}
+	if stubborn {
+		em.Hit("pipeline-ignores-context")
 	}
 	// callers run concurrently: interleave the call list deterministically (order within a caller kept)
 	sort.SliceStable(in.Calls, func(i, j int) bool { return in.Calls[i].Caller < in.Calls[j].Caller })
@@ -704,6 +806,56 @@ func c13GenLong(r *Rng, nShort int, em *Emitter) c13Input {
 	return in
 }
 
+// c13GenRacy: look-up loops racing with aggregations.  Caller 0 checks n work ids on block N (all
+// cached afterwards), then keeps re-checking them on block N; at the very same virtual instant caller
+// 1 checks the same work ids on block N+1, so its aggregation replaces the cached entries one by
+// one while caller 0's look-up loop walks over them.  Instant pipeline, no instants of their own:
+// true concurrency inside the bubble.  Only caller 0 ever asks for block N and only caller 1 for
+// N+1, and the first call is over before the race starts, so every cache hit is a result of a
+// pipeline call that had completed before the hitting call started (which the predicate requires).
+func c13GenRacy(r *Rng, em *Emitter) c13Input {
+	in := c13Input{Racy: true, Clean: int64(30 * time.Second), Workers: []int{4, 8, 16, 16}[r.Intn(4)], Expire: int64(20 * time.Minute)}
+	if r.Chance(30) {
+		in.Expire = 0
+	}
+	n := []int{60, 100, 200, 200, 400}[r.Intn(5)]
+	w := c13NewWorld(r, n)
+	bn := uint64(w.blocks[0].Number)
+	w.blocks = []ocr2keepers.BlockKey{{Number: ocr2keepers.BlockNumber(bn), Hash: genHash(r)}, {Number: ocr2keepers.BlockNumber(bn + 1), Hash: genHash(r)}}
+	cid := 0
+	mk := func(caller int, wait int64, bi int) c13Call {
+		call := c13Call{C: cid, Caller: caller, Wait: wait}
+		for ui := 0; ui < n; ui++ {
+			p := w.payload(ui, bi)
+			a := c13Attr{CID: uint16(cid), Lat: 1, Misc: 2}
+			p.CheckData = a.encode()
+			call.Payloads = append(call.Payloads, toC13Payload(p))
+		}
+		cid++
+		return call
+	}
+	t1 := int64(1_000_137)
+	in.Calls = append(in.Calls, mk(0, 1000, 0)) // block N: cached when it returns (same instant)
+	readers := r.Range(2, 6)                    // callers 0 … readers-1 re-check block N, all starting at t1, back to back
+	for k := 0; k < readers; k++ {
+		for j, nj := 0, r.Range(1, 3); j < nj; j++ {
+			wait := int64(0)
+			if j == 0 {
+				wait = t1
+				if k == 0 {
+					wait = t1 - 1000
+				}
+			}
+			in.Calls = append(in.Calls, mk(k, wait, 0))
+		}
+	}
+	in.Calls = append(in.Calls, mk(readers, t1, 1))        // block N+1, also at t1
+	in.Calls = append(in.Calls, mk(readers, 1_000_000, 1)) // later: everything on N+1 is cached
+	em.Hit("racy-lookups-vs-aggregation")
+	em.Hit(fmt.Sprintf("racy-readers=%d", readers))
+	return in
+}
+
 // ---------------------------------------------------------------- hand-written edge cases
 
 func c13Edge() []c13Input {
@@ -808,6 +960,31 @@ func c13Edge() []c13Input {
 		in.Instant = true
 		out = append(out, in)
 	}
+	// Runner.Close() while batches are inside a pipeline that still answers: batch 1 answered before, batches 2 and 3
+	// in flight at the close and answered successfully afterwards -> 25 results, no error
+	deaf := c13Attr{Lat: 100_000_000, Misc: 4}
+	closing := func(at int64, in c13Input) c13Input { in.CloseAt = at; return in }
+	out = append(out, closing(50_000_000, hist(min20, 4, call(0, 1000, nil, append(many(0, 10, 0, fast), many(10, 15, 0, deaf)...)...))))
+	// ... one worker: batch 2 in flight (answers), batch 3 still queued (fails without reaching the pipeline) -> 20 results
+	out = append(out, closing(50_000_000, hist(min20, 1, call(0, 1000, nil, append(many(0, 10, 0, fast), many(10, 15, 0, deaf)...)...))))
+	// ... the only batch is in flight and answers -> 7 results, no error; a later call on the closed runner gets only cache hits
+	out = append(out, closing(50_000_000, hist(min20, 2, call(0, 1000, nil, many(0, 7, 0, deaf)...), call(0, 1000, nil, many(0, 12, 0, ok)...))))
+	// ... a pipeline that does react to the cancelled context: the in-flight batches fail
+	out = append(out, closing(50_000_000, hist(min20, 4, call(0, 1000, nil, append(many(0, 10, 0, fast), many(10, 15, 0, slow)...)...))))
+	out = append(out, closing(50_000_000, hist(min20, 4, call(0, 1000, nil, many(0, 15, 0, slow)...))))
+	// failed executions that propose a retry interval (state != 0, retryable, RetryInterval 5 s), a plain retryable failure and
+	// a final failure: none of them may be answered from the cache when the identical payloads are checked again at once
+	ri := func(pes, misc uint8) c13Attr { return c13Attr{PES: pes, Misc: misc} }
+	out = append(out, hist(min20, 2,
+		call(0, 1000, nil, pp{0, 0, ok}, pp{1, 0, ri(3, 1)}, pp{2, 0, ri(5, 0)}, pp{3, 0, ri(4, 1|8)}, pp{4, 0, ri(4, 1|8)}, pp{5, 2, ri(4, 1|8)}),
+		call(0, 1000, nil, pp{0, 0, ok}, pp{1, 0, ok}, pp{2, 0, ok}, pp{3, 0, ok}, pp{4, 0, ok}, pp{5, 2, ok}, pp{5, 0, ok})))
+	// a success is cached, then the same work id fails with a retry interval on a higher block, then both blocks again
+	out = append(out, hist(min20, 2, call(0, 1000, nil, pp{0, 0, ok}), call(0, 1000, nil, pp{0, 2, ri(4, 1|8)}), call(0, 1000, nil, pp{0, 0, ok}, pp{0, 2, ok})))
+	// one work id, results of changing trigger shape: cached without a log extension, then checked on the other fork of the
+	// same block number with one (and the reverse order for a log upkeep)
+	flip := c13Attr{Mut: 5}
+	out = append(out, hist(min20, 2, call(0, 1000, nil, pp{0, 0, ok}, pp{1, 0, flip}), call(0, 1000, nil, pp{0, 1, flip}, pp{1, 1, ok}), call(0, 1000, nil, pp{0, 0, ok}, pp{1, 0, ok})))
+	out = append(out, hist(min20, 2, call(0, 1000, nil, pp{0, 0, flip}, pp{1, 0, ok}), call(0, 1000, nil, pp{0, 1, ok}, pp{1, 1, flip}), call(0, 1000, nil, pp{0, 0, ok}, pp{1, 0, ok})))
 	// contract broken by the pipeline: dropped / duplicated / foreign / other block
 	out = append(out, hist(min20, 2, call(0, 1000, nil, pp{0, 0, c13Attr{Mut: 1}}, pp{1, 0, c13Attr{Mut: 2}}, pp{2, 0, c13Attr{Mut: 3}}, pp{3, 0, c13Attr{Mut: 4}}, pp{4, 0, ok}),
 		call(0, 1000, nil, pp{0, 0, ok}, pp{1, 0, ok}, pp{2, 0, ok}, pp{3, 0, ok}, pp{3, 2, ok}, pp{4, 0, ok})))
@@ -816,10 +993,58 @@ func c13Edge() []c13Input {
 
 // ---------------------------------------------------------------- entry point
 
+// TestC13 runs the histories in CHILD processes (the test binary re-executed with VERIF_C13_CHILD=lo:hi):
+// code reached through the runner runs on goroutines nobody can put a recover around (the result
+// reader of util.RunJobs), so a panic there kills the process.  A child appends one complete line per
+// history to its own file and names the history it is about to run in a progress file; if it dies,
+// the parent records that history as `crashed` (the driver reports it as a violation) and goes on
+// with the next one in a new child.
 func TestC13(t *testing.T) {
 	em := NewEmitter(t, "C13")
 	defer em.Close()
-	run := func(src string, in c13Input) {
+	type item struct {
+		src string
+		in  c13Input
+	}
+	var items []item
+	only := os.Getenv("VERIF_C13_SRC") // debugging aid: run only the histories of one source ("gen-racy", "edge", ...)
+	add := func(src string, in c13Input) {
+		if only == "" || src == only {
+			items = append(items, item{src, in})
+		}
+	}
+	names, raws, replayOnly := corpusInputs(t, "C13")
+	for i, raw := range raws {
+		var in c13Input
+		if err := json.Unmarshal(raw, &in); err != nil {
+			t.Fatalf("%s: %v", names[i], err)
+		}
+		add(names[i], in)
+	}
+	if !replayOnly {
+		for _, in := range c13Edge() {
+			add("edge", in)
+		}
+		r := NewRng(seed())
+		n := tierN(700, 7000)
+		nbig := tierN(6, 60)
+		for i := 0; i < n; i++ {
+			add("gen", c13Gen(r, i < nbig, em))
+		}
+		rl := NewRng(seed() ^ 0x10c13)
+		for i, nl := 0, tierN(3, 40); i < nl; i++ {
+			add("gen-long", c13GenLong(rl, rl.Range(1150, 1400), em))
+		}
+		ri := NewRng(seed() ^ 0x13c13)
+		for i, ni := 0, tierN(120, 2000); i < ni; i++ {
+			add("gen-instant", c13GenInstant(ri, em))
+		}
+		rr := NewRng(seed() ^ 0x4ac13)
+		for i, nr := 0, tierN(24, 400); i < nr; i++ {
+			add("gen-racy", c13GenRacy(rr, em))
+		}
+	}
+	runOne := func(src string, in c13Input) c13Impl {
 		var impl c13Impl
 		func() {
 			// a call that never returns leaves goroutines blocked for ever: synctest reports that
@@ -836,34 +1061,81 @@ func TestC13(t *testing.T) {
 			em.Hit("problem")
 			t.Logf("%s: %s", src, impl.Problem)
 		}
-		em.Emit(src, in, impl)
+		return impl
 	}
-	names, raws, replayOnly := corpusInputs(t, "C13")
-	for i, raw := range raws {
-		var in c13Input
-		if err := json.Unmarshal(raw, &in); err != nil {
-			t.Fatalf("%s: %v", names[i], err)
+
+	if spec := os.Getenv("VERIF_C13_CHILD"); spec != "" {
+		var lo, hi int
+		fmt.Sscanf(spec, "%d:%d", &lo, &hi)
+		em.n = lo
+		progress := os.Getenv("VERIF_C13_PROGRESS")
+		for i := lo; i < hi && i < len(items); i++ {
+			os.WriteFile(progress, []byte(strconv.Itoa(i)), 0o644)
+			em.Emit(items[i].src, items[i].in, runOne(items[i].src, items[i].in))
+			em.mu.Lock()
+			em.w.Flush()
+			em.mu.Unlock()
 		}
-		run(names[i], in)
-	}
-	if replayOnly {
+		os.WriteFile(progress, []byte("done"), 0o644)
 		return
 	}
-	for _, in := range c13Edge() {
-		run("edge", in)
+
+	dir, err := os.MkdirTemp("", "c13-child-")
+	if err != nil {
+		t.Fatal(err)
 	}
-	r := NewRng(seed())
-	n := tierN(700, 7000)
-	nbig := tierN(6, 60)
-	for i := 0; i < n; i++ {
-		run("gen", c13Gen(r, i < nbig, em))
+	defer os.RemoveAll(dir)
+	restarts := 0
+	for lo := 0; lo < len(items); {
+		chunk, progress := filepath.Join(dir, fmt.Sprintf("chunk-%d.jsonl", lo)), filepath.Join(dir, "progress")
+		os.WriteFile(progress, []byte(strconv.Itoa(lo)), 0o644)
+		cmd := exec.Command(os.Args[0], "-test.run", "^TestC13$", "-test.timeout", "50m")
+		cmd.Env = append(os.Environ(), fmt.Sprintf("VERIF_C13_CHILD=%d:%d", lo, len(items)), "VERIF_C13_PROGRESS="+progress, "VERIF_OUT="+chunk, "VERIF_DIST=")
+		var outb bytes.Buffer
+		cmd.Stdout, cmd.Stderr = &outb, &outb
+		werr := cmd.Run()
+		// whatever the child completed
+		if f, err := os.Open(chunk); err == nil {
+			em.mu.Lock()
+			nb, _ := io.Copy(em.w, f)
+			em.mu.Unlock()
+			f.Close()
+			_ = nb
+		}
+		pb, _ := os.ReadFile(progress)
+		if string(pb) == "done" {
+			if werr != nil {
+				t.Errorf("child: %v\n%s", werr, c13Tail(outb.String(), 3000))
+			}
+			break
+		}
+		died, _ := strconv.Atoi(string(pb))
+		crash := "the process died"
+		for _, line := range strings.Split(outb.String(), "\n") {
+			if strings.HasPrefix(line, "panic:") || strings.HasPrefix(line, "fatal error:") {
+				crash = line
+				break
+			}
+		}
+		if i := strings.Index(crash, " [recovered]"); i > 0 {
+			crash = crash[:i]
+		}
+		em.Hit("child-died")
+		t.Logf("history %d (%s): the child process died: %s", died, items[died].src, crash)
+		em.n = died
+		em.Emit(items[died].src, items[died].in, c13Impl{Crashed: true, Crash: crash})
+		lo = died + 1
+		em.n = lo
+		if restarts++; restarts > 12 {
+			t.Errorf("more than 12 histories killed the process; %d histories not run", len(items)-lo)
+			break
+		}
 	}
-	rl := NewRng(seed() ^ 0x10c13)
-	for i, nl := 0, tierN(3, 40); i < nl; i++ {
-		run("gen-long", c13GenLong(rl, rl.Range(1150, 1400), em))
+}
+
+func c13Tail(s string, n int) string {
+	if len(s) > n {
+		return s[len(s)-n:]
 	}
-	ri := NewRng(seed() ^ 0x13c13)
-	for i, ni := 0, tierN(120, 2000); i < ni; i++ {
-		run("gen-instant", c13GenInstant(ri, em))
-	}
+	return s
 }
